@@ -31,6 +31,7 @@ def _order(name, op, negop):
         __doc__ = "documented: value must be %s %s" % (op, name)
         self_model = "class:Constraints"
         locals()["cases"] = cases
+        result = "like:value"
         returns = {"accept_only_if_%s" % name: "value %s %s" % (op, name),
                    "unchanged": "result is value"}
         raises = {"ValueError": {"reject_only_if_not_%s" % name: "not (value %s %s)" % (op, name)}}
@@ -59,6 +60,7 @@ def _lax(name, op, pick):
         locals()["cases"] = cases
         returns = {"clamped": "(result is %s) if (value %s %s) else (result is value)" % (name, pick, name)}
         only_raises = []
+        result = "like:value"
     return _
 
 
@@ -83,6 +85,7 @@ def _length(name, param, rel, domain):
     class _:
         self_model = "class:Constraints"
         locals()["cases"] = cases
+        result = "like:value"
         returns = {"accept_only_if": "(%s) %s %s" % (MEASURE, rel, param), "unchanged": "result is value"}
         raises = {"ValueError": {"reject_only_if_not": "not ((%s) %s %s)" % (MEASURE, rel, param)}}
         only_raises = ["ValueError"]
@@ -96,6 +99,7 @@ MIN_LENGTH = _length("min_length", "m", ">=", POS)
 
 @contract(F, "Constraints.lax_length", props=["C03"])
 class LAX_LENGTH:
+    result = "like:value"
     """truncate to exactly lg items, or fail when shorter / not sliceable"""
     self_model = "class:Constraints"
     cases = {k: dict(v, lg=NAT) for k, v in LEN_CASES.items()}
@@ -112,6 +116,7 @@ class LAX_LENGTH:
 
 @contract(F, "Constraints.lax_max_length", props=["C03"])
 class LAX_MAX_LENGTH:
+    result = "like:value"
     self_model = "class:Constraints"
     cases = {k: dict(v, m=POS) for k, v in LEN_CASES.items()}
     returns = {
@@ -129,6 +134,7 @@ class LAX_MAX_LENGTH:
 
 @contract(F, "Constraints.const", props=["C02"])
 class CONST:
+    result = "like:v"
     """documented: equal by == and of the same type (numeric int/float, int/Decimal pairs tolerated)"""
     self_model = "class:Constraints"
     cases = {"obj,obj": dict(value=OBJ, v=OBJ), "int,int": dict(value=INT, v=INT), "bool,int": dict(value=BOOL, v=INT),
@@ -143,6 +149,7 @@ class CONST:
 
 @contract(F, "Constraints.lax_const", props=["C03"])
 class LAX_CONST:
+    result = "like:v"
     self_model = "class:Constraints"
     cases = {"obj,obj": dict(value=OBJ, v=OBJ)}
     returns = {"const": "result is v"}
@@ -203,6 +210,7 @@ class REGEX:
 
 @contract(F, "Constraints.multiple_of", props=["C02"])
 class MULTIPLE_OF:
+    result = "like:value"
     """documented: the number must be a multiple of `of`"""
     self_model = "class:Constraints"
     cases = {"int,int": dict(value=INT, of=INT)}
@@ -215,6 +223,7 @@ class MULTIPLE_OF:
 
 @contract(F, "Constraints.lax_multiple_of", props=["C03"])
 class LAX_MULTIPLE_OF:
+    result = "like:value"
     """documented: the nearest multiple smaller than the input"""
     self_model = "class:Constraints"
     cases = {"int,int": dict(value=INT, of=INT)}
@@ -247,6 +256,7 @@ class PARSE_DECIMAL:
 
 @contract(F, "Constraints.max_digits", props=["C02"])
 class MAX_DIGITS:
+    result = "like:value"
     self_model = "class:Constraints"
     cases = {k: dict(v, max_digits=NAT) for k, v in DEC_CASES.items()}
     returns = {"within": "(not isspecial(value)) and digits_of(value) <= max_digits", "unchanged": "result is value"}
@@ -256,6 +266,7 @@ class MAX_DIGITS:
 
 @contract(F, "Constraints.decimal_places", props=["C02"])
 class DECIMAL_PLACES:
+    result = "like:value"
     self_model = "class:Constraints"
     cases = {k: dict(v, d=NAT) for k, v in DEC_CASES.items()}
     returns = {"within": "(not isspecial(value)) and decimals_of(value) <= d"}
@@ -268,9 +279,10 @@ class DECIMAL_PLACES:
 
 @contract(F, "Constraints.lax_decimal_places", props=["C03"])
 class LAX_DECIMAL_PLACES:
+    result = "like:value"
     self_model = "class:Constraints"
     cases = {"Decimal": dict(value=DEC, r=NAT)}
-    returns = {"rounded_to_r_places": "dec_exp(result) == -r", "strict_form_holds": "decimals_of(result) <= r",
+    returns = {"rounded_to_r_places": "dec_exp(result) == -r", "finite": "not isspecial(result)", "strict_form_holds": "decimals_of(result) <= r",
                "identity_when_already": "implies(dec_exp(value) == -r, numeq(result, value))"}
     only_raises = []
     assumes = ["float: round(float, r) is CPython's and not modelled (not proved)"]
@@ -278,10 +290,11 @@ class LAX_DECIMAL_PLACES:
 
 @contract(F, "Constraints.lax_max_digits", props=["C03"])
 class LAX_MAX_DIGITS:
+    result = "like:value"
     """documented: round off decimal places until max_digits is met, error if it cannot be"""
     self_model = "class:Constraints"
     cases = {"Decimal": dict(value=DEC, max_digits=POS), "int": dict(value=INT, max_digits=POS)}
-    returns = {"strict_form_holds": "digits_of(result) <= max_digits",
+    returns = {"strict_form_holds": "digits_of(result) <= max_digits", "finite": "not isspecial(result)",
                "identity_when_already": "implies(digits_of(value) <= max_digits, result is value)"}
     raises = {"ValueError": {"only_if_integer_part_too_long": "digits_of(value) - decimals_of(value) > max_digits or digits_of(value) > max_digits"}}
     only_raises = ["ValueError"]
@@ -295,6 +308,7 @@ _HASDUP = "exists(len(%s), lambda i: exists(i, lambda j: same(%s[j], %s[i])))"
 
 @contract(F, "Constraints.unique_items", props=["C02"])
 class UNIQUE_ITEMS:
+    result = "like:value"
     self_model = "class:Constraints"
     cases = {"list,True": dict(value=LIST, u=TRUE), "tuple,True": dict(value=TUPLE, u=TRUE),
              "list,False": dict(value=LIST, u=FALSE), "list,bool": dict(value=LIST, u=BOOL)}
@@ -310,6 +324,7 @@ class UNIQUE_ITEMS:
 
 @contract(F, "Constraints.lax_unique_items", props=["C03"])
 class LAX_UNIQUE_ITEMS:
+    result = "like:value"
     """documented: the de-duplicated data (first occurrences, order kept)"""
     self_model = "class:Constraints"
     cases = {"list,True": dict(value=LIST, u=TRUE), "tuple,True": dict(value=TUPLE, u=TRUE),
